@@ -445,6 +445,19 @@ class InjectCtx(SharedCtx):
         if self.rng.random() < 0.3:
             self._inject(target)
 
+    def on_update(self, root, date):
+        """right after a completed outermost update (also on dates on which no algo runs, e.g. the date a root is declared bankrupt)"""
+        if getattr(self, "_busy", False) or self.rng.random() > 0.25:
+            return
+        self._busy = True
+        try:
+            self.p, p = 1.0, self.p
+            self._inject(root)
+            self.p = p
+            self.end_of_update_injections = getattr(self, "end_of_update_injections", 0) + 1
+        finally:
+            self._busy = False
+
 
 def all_frames(root):
     out = {}
